@@ -183,14 +183,45 @@ func c17LargeLens() []int {
 	return ls
 }
 
+// c17BlockLens: every power of two from 2^17 to 2^24 and the small multiples of 2^20 (sizes at which
+// an implementation that works block-wise - for preemptibility, for a vector unit - changes its
+// path), each with its neighbours.
+func c17BlockLens() []int {
+	var ls []int
+	seen := map[int]bool{}
+	add := func(c int) {
+		for n := c - 2; n <= c+2; n++ {
+			if !seen[n] {
+				seen[n] = true
+				ls = append(ls, n)
+			}
+		}
+	}
+	for k := 17; k <= 24; k++ {
+		add(1 << k)
+	}
+	for m := 3; m <= 7; m++ {
+		add(m << 20)
+	}
+	add(3 << 16)
+	add(5 << 18)
+	return ls
+}
+
 func c17LargeRun(c *fw.Ctx, shard, nshards int) {
-	const maxLen = 131075
+	lens := c17LargeLens()
+	blocks := c17BlockLens()
+	maxLen := 131075
+	for i := shard; i < len(blocks); i += nshards {
+		if blocks[i] > maxLen {
+			maxLen = blocks[i]
+		}
+	}
 	backing := make([]byte, maxLen+512)
 	want := make([]byte, maxLen)
 	orig := make([]byte, maxLen+2*c17Guard)
 	rnd := rand.New(rand.NewSource(c.Seed*1000 + 77 + int64(shard)))
 	ims := maskImpls()
-	lens := c17LargeLens()
 	for i := shard; i < len(lens); i += nshards {
 		n := lens[i]
 		for _, im := range ims {
@@ -200,7 +231,18 @@ func c17LargeRun(c *fw.Ctx, shard, nshards int) {
 			c17One(c, im, c17Case{im.name, n, 5, c17Keys[0], n / 3, -1}, backing, want, orig, rnd)
 		}
 	}
+	for i := shard; i < len(blocks); i += nshards {
+		n := blocks[i]
+		for _, im := range ims {
+			for j, align := range []int{0, 1, 31, 48} {
+				c17One(c, im, c17Case{im.name, n, align, c17Keys[(i+j)%len(c17Keys)], -1, -1}, backing, want, orig, rnd)
+			}
+			c17One(c, im, c17Case{im.name, n, 5, c17Keys[0], 1 << 16, -1}, backing, want, orig, rnd)
+		}
+	}
 	c.Bound("large_lengths", len(lens))
+	c.Bound("block_lengths", len(blocks))
+	c.Bound("block_length_max", 1<<24+2)
 }
 
 func init() {
